@@ -286,7 +286,8 @@ func scenario(x *explore.X, product int) {
 		cred = creds[choose("credentials", len(creds))]
 		host = hosts[choose("host", len(hosts))]
 	}
-	position := choose("position", 3)
+	// what happened on this proxy before the request under test is part of the full products
+	position := free("position", 5)
 
 	opts := world.Options{}
 	if c.auth {
@@ -360,6 +361,22 @@ func scenario(x *explore.X, product int) {
 			methods = append(methods, "GET")
 			serveOK()
 			world.Settle(5 * time.Second)
+		case 3: // after an accepted request that FAILED beyond the proxy: the origin took it and hung up without a reply
+			cn.s.Send(reqBytes(0, okHost, right, false))
+			methods = append(methods, "GET")
+			world.Settle(0)
+			okHop.Poll()
+			for _, oc := range okHop.Conns {
+				oc.Close()
+			}
+			world.Settle(5 * time.Second)
+		case 4: // after an accepted request for a host nobody answers for (dial failure, 502)
+			nobody := hostVariant{name: "nobody", authority: "nobody.test", port: "80"}
+			if decide(c, true, nobody) == 0 {
+				cn.s.Send(reqBytes(0, nobody, right, false))
+				methods = append(methods, "GET")
+				world.Settle(20 * time.Second)
+			}
 		}
 		if cn.raw.EOF() || cn.raw.Reset() {
 			cn.raw.Close()
